@@ -1153,6 +1153,7 @@ func c32RelocateCase(t *testing.T, e *vsched.Enum, roleIdx, loads []int, gsi int
 				}
 			}
 		}
+		sort.Strings(pl.unplaceable)
 		gper = make([][]string, nt)
 		w.mu.Lock()
 		for id, by := range w.getGrainBy {
@@ -1204,9 +1205,11 @@ func TestVerifC32(t *testing.T) {
 	if !d.actor[c32Plain] || !d.actor[c32Singleton] {
 		t.Fatalf("c32: the harness could not make the real dispatch recreate a plain/singleton actor: %s", d.note)
 	}
-	c32PlanActors(d)
+	// cheap scenarios first: under an overloaded machine the wall budget then cuts into the largest
+	// enumeration only
 	c32PlanGrains(d)
-	c32Redistribute(d)
 	c32Batching(t)
+	c32Redistribute(d)
 	c32Relocate(t)
+	c32PlanActors(d)
 }
